@@ -20,7 +20,7 @@ ASSUMPTIONS = ["cells are tetrahedra forming a conforming complex whose boundary
 KINDS = ["face_to_cells", "cell_to_face", "cell_to_cell", "edge_to_cell", "edge_to_face", "vertex_to_cell", "cell_to_edge",
          "in_cell_index", "in_cell_face_index", "common_face", "other_face_side", "is_face_on_border", "is_face_on_border_v",
          "is_edge_on_border", "is_edge_on_border_uv", "is_vertex_on_border", "border_faces", "border_edges", "border_vertices",
-         "cell_to_vertex", "face_id", "edge_id"]
+         "cell_to_vertex", "face_id", "edge_id", "clear_caches", "n_F2C", "is_tetrahedral"]
 
 
 @st.composite
@@ -235,6 +235,18 @@ def do_query(m, ref, info, sort_on, q, ctx, where):
         ok, r = call(C.edge_id, u, v)
         if ok:
             ctx.check(r == e, sig, f"{where}: edge_id({u},{v}) = {r!r}, expected {e}")
+    elif kind == "clear_caches":
+        call(C.clear)          # documented reset; later answers must not change
+    elif kind == "n_F2C":
+        f = a % nF
+        ok, r = call(C.n_F2C, f)
+        if ok:
+            ctx.check(r == len(ref.f2c[mfaces[f]]), sig, f"{where}: n_F2C({f}) = {r}")
+    elif kind == "is_tetrahedral":
+        ok, r = call(m.is_tetrahedral)
+        ok2, r2 = call(m.is_cell_tet, a % nC)
+        if ok and ok2:
+            ctx.check(bool(r) and bool(r2), sig, f"{where}: is_tetrahedral() = {r}, is_cell_tet = {r2} on a tetrahedral mesh")
     else:
         raise AssertionError(kind)
 
@@ -331,6 +343,8 @@ def fn(case, ctx):
             qs = [[kind, c, b] for c in range(nC) for b in (1, 2, 4, 5)] + [[kind, c, 3 * rnd.randrange(50)] for c in range(nC)]
         elif kind == "common_face":
             qs = [[kind, c, b] for c in range(nC) for b in (1, 2, 4, 5)] + [[kind, c, 3 * rnd.randrange(50)] for c in range(nC)]
+        elif kind == "n_F2C":
+            qs = [[kind, f, 0] for f in range(nF)]
         else:
             qs = [[kind, 0, 0]]
         for q in qs:
@@ -376,6 +390,25 @@ def fn(case, ctx):
                     if ok2 and r is not None:
                         exp = sorted(fid[fk] for fk in ref.border_faces() if v in fk)
                         ctx.check(sorted(ints(r)) == exp, "boundary:v2f", f"boundary vertex_to_faces({v}) = {r}, expected {exp}")
+                    ok2, r = ctx.call("boundary:v2e", bc.vertex_to_edges, v)
+                    if ok2:
+                        exp = sorted(eid[ek] for ek in ref.border_edges() if v in ek)
+                        ctx.check(sorted(ints(r)) == exp, "boundary:v2e", f"boundary vertex_to_edges({v}) = {r}, expected {exp}")
+                for fk in sorted(ref.border_faces())[:6]:
+                    f = fid[fk]
+                    ok2, r = ctx.call("boundary:f2e", bc.face_to_edges, f)
+                    if ok2:
+                        exp = sorted(eid[key(fk[i], fk[(i + 1) % 3])] for i in range(3))
+                        ctx.check(sorted(ints(r)) == exp, "boundary:f2e", f"boundary face_to_edges({f}) = {r}, expected {exp}")
+                    ok2, r = ctx.call("boundary:f2f", bc.face_to_faces, f)
+                    if ok2:
+                        exp = sorted(fid[g] for g in ref.border_faces() if g != fk and len(set(g) & set(fk)) == 2)
+                        ctx.check(sorted(ints(r)) == exp, "boundary:f2f", f"boundary face_to_faces({f}) = {r}, expected {exp}")
+                interior = [f for f in range(len(mfaces)) if len(ref.f2c[mfaces[f]]) == 2][:2]
+                for f in interior:
+                    ok2, r = ctx.call("boundary:f2e-interior", bc.face_to_edges, f)
+                    if ok2:
+                        ctx.check(list(r) == [], "boundary:f2e-interior", f"boundary face_to_edges of interior face {f} = {r}, expected []")
 
     # ---- boundary: standalone extractor
     from mouette.processing import border as B
